@@ -40,7 +40,7 @@ class TaskGroup(TaskConstraint):
         Union[FixedDurationTask, ZeroDurationTask, VariableDurationTask]
     ]
     time_interval: Tuple[int, int] = Field(default=None)
-    time_interval_length: int = Field(default=0)
+    time_interval_length: int = Field(default=None)
 
     def __init__(self, **data) -> None:
         super().__init__(**data)
@@ -49,6 +49,8 @@ class TaskGroup(TaskConstraint):
         self._start = z3.Int(f"task_group_start_{u_id}")
         self._end = z3.Int(f"task_group_end_{u_id}")
 
+        # without any time window the group only keeps its tasks together
+        self._scheduled_assertion = []
         if self.time_interval is not None:
             self._scheduled_assertion = [
                 self._start >= self.time_interval[0],
